@@ -112,6 +112,17 @@ CHECKS = {
              'every number written, field counts); decimal conversion (printf/strtod), libm and the conversions (C04/C05) are trusted; format lists made only of scalar blocks '
              '(IL, RL, VSWR) cannot be loaded by design and are exempt from the load half; fprecision so low that frequencies coincide is exempt from the load half.',
         ref='DESIGN.md §6 C06'),
+    'C07': dict(
+        technique='Lean 4 proof (calibration-table model: load of a saved name list has no holes, indices follow the saved order, save . load . save = save) + correspondence of the loaded layout + independent libyaml reading of the file and fixed-point / apply comparison as oracle',
+        text='Theorems on the table model of C16: loading a list of distinct names puts the i-th saved calibration at index i and leaves no hole, the end is the number of names, and '
+             'saving the loaded table gives the same list whatever holes the original had. On the compiled C: random vnacal_t (1..3 calibrations of all 8 types and shapes, names '
+             'needing YAML quoting, global and per-calibration property trees, deleted slots) x fprecision/dprecision 1..15 and maximum: an independent reading of the file must find '
+             'names, order, types, dimensions, frequencies, z0 and the terms of the maximum-precision file rounded to the requested digits; the loaded vnacal_t reports the same, '
+             'saves to the byte-identical file, and corrects a measurement like the original (bit-identical at maximum precision); the `#VNACAL 3.0` header and E12 data in the old '
+             '`#VNACAL 2.0` layout load to the same terms.',
+        note='Lean kernel + standard axioms; Model/CalTable.lean hand-written, tied by the C16 correspondence run and the layout comparison here; libyaml, printf/strtod trusted; the '
+             'equality of error terms is decided by the oracle, not by a theorem; an fprecision so low that neighbouring frequencies coincide is exempt from the load half.',
+        ref='DESIGN.md §6 C07'),
     'C08': dict(
         technique='Lean 4 proof (option line as a fold: case- and order-independence; storage/order/framing equivalences as corollaries of the C06 theorems; exact unit scaling) on a hand model + correspondence run on random option lines + independent writer of equivalent spellings as oracle',
         text='Theorems: the option line result does not depend on letter case, nor on the order of its items when no field is given twice (last occurrence wins otherwise); '
